@@ -65,6 +65,14 @@ type roundsPlan struct {
 	QueueSize int      `json:"queue_size"`
 	Async     bool     `json:"async"`
 	ReadSizes []int    `json:"read_sizes,omitempty"`
+	// SpreadHooks: hooks are registered by spreading a slice with spare capacity, and the caller overwrites its
+	// slice afterwards (the library must have copied what it was given).
+	SpreadHooks bool `json:"spread_hooks,omitempty"`
+	// SlowHook: the first call of a message hook takes six seconds - longer than the read timeout of five. The
+	// messages still reach the hooks before any later package reaches the consumer.
+	SlowHook bool `json:"slow_hook,omitempty"`
+	// ReadTimeout0: Info.PacketReadTimeout is 0 (legal: the timeout only matters for a connection that ended).
+	ReadTimeout0 bool `json:"read_timeout_0,omitempty"`
 }
 
 func (it rItem) bytes() []byte {
@@ -306,6 +314,17 @@ func genRoundsPlan(r *Rand, eedPct, envPct int, hooks bool) *roundsPlan {
 			p.ReadSizes = append(p.ReadSizes, r.Intn(12))
 		}
 	}
+	if hooks {
+		p.SpreadHooks = r.Pct(30)
+		p.SlowHook = r.Pct(12)
+		for _, rd := range p.Rounds {
+			// (rounds with their own timing - polls that spin, slow responses, pausing consumers - stay as they are)
+			if rd.Poll || rd.Slow || rd.PauseAt > 0 || rd.NoPause {
+				p.SlowHook = false
+			}
+		}
+	}
+	p.ReadTimeout0 = r.Pct(8)
 	return p
 }
 
@@ -467,7 +486,11 @@ func runRounds(p *roundsPlan, schedSeed uint64, replay []simrt.Choice, lenient, 
 	s.Net.Setup = func(c *simrt.Conn) { c.ReadSizes = p.ReadSizes }
 	obs := &roundsObs{rounds: make([]roundObs, len(p.Rounds)), concHook: map[int]int{}}
 	out := s.Run(func() {
-		conn, err := tds.NewConn(context.Background(), MkInfo(p.QueueSize, 5, false))
+		readTimeout := 5
+		if p.ReadTimeout0 {
+			readTimeout = 0
+		}
+		conn, err := tds.NewConn(context.Background(), MkInfo(p.QueueSize, readTimeout, false))
 		if err != nil {
 			obs.setupErr = err.Error()
 			return
@@ -477,12 +500,31 @@ func runRounds(p *roundsPlan, schedSeed uint64, replay []simrt.Choice, lenient, 
 			obs.setupErr = err.Error()
 			return
 		}
+		slept := false
 		addEED := func() int {
 			id := len(obs.eedHooks)
 			obs.eedHooks = append(obs.eedHooks, -1)
-			err := ch.RegisterEEDHooks(func(e tds.EEDPackage) {
+			fn := func(e tds.EEDPackage) {
+				if p.SlowHook && !slept {
+					slept = true
+					simrt.Sleep(6 * time.Second)
+				}
 				obs.eedCalls = append(obs.eedCalls, hookCall{id, simrt.Record("eed-hook", "", "", int64(id)), fmt.Sprintf("EED n=%d s=%d", e.MsgNumber, e.Status)})
-			})
+			}
+			var err error
+			if p.SpreadHooks {
+				hs := make([]tds.EEDHook, 1, 4)
+				hs[0] = fn
+				err = ch.RegisterEEDHooks(hs...)
+				hs = hs[:4]
+				for i := range hs {
+					hs[i] = func(e tds.EEDPackage) {
+						obs.eedCalls = append(obs.eedCalls, hookCall{id, simrt.Record("eed-hook", "", "", int64(id)), "a function the caller put into its own slice AFTER registering"})
+					}
+				}
+			} else {
+				err = ch.RegisterEEDHooks(fn)
+			}
 			obs.eedHooks[id] = simrt.Record("eed-hook-registered", "", "", int64(id))
 			if err != nil {
 				obs.setupErr = "RegisterEEDHooks: " + err.Error()
